@@ -460,6 +460,12 @@ func (g *G) listKeys(n int, fs bool) []string {
 			set[pool[g.rng.Intn(len(pool))]] = true
 		}
 	}
+	if g.chance(0.15) {
+		// a delimiter of several bytes, in keys that contain it more than once
+		for _, k := range []string{"t::a::1", "t::a::2", "t::b", "t:c", "u::v::w", "t::a:3"} {
+			set[k] = true
+		}
+	}
 	var keys []string
 	for k := range set {
 		keys = append(keys, k)
@@ -557,7 +563,7 @@ func (g *G) genC03(p *Plan, paging bool) {
 	delims := []string{""}
 	cands := []string{"/"}
 	if !c.IsFS() {
-		cands = append(cands, "-", "é", "b")
+		cands = append(cands, "-", "é", "b", "::", "::")
 	}
 	for _, d := range cands {
 		ok := true
@@ -590,6 +596,9 @@ func (g *G) genC03(p *Plan, paging bool) {
 		}
 		if paging {
 			op.Max = g.n(1, len(keys)+1)
+			if g.chance(0.08) {
+				op.Max = g.pick2(999, 1000, 1001, 100000) // at and beyond the default page size
+			}
 			switch r := g.rng.Intn(10); {
 			case r < 6:
 				op.K = "walk"
